@@ -1,5 +1,5 @@
 SPECIFICATION Spec
-CONSTANTS Grids = {8, 16}
+CONSTANTS Grids = {8}
           MaxRet = 3
           MaxRet16 = 3
           MaxKnees = 2
